@@ -154,7 +154,15 @@ pub fn check(w: &Walk) -> (Facts, Vec<Finding>) {
     for n in &w.nodes {
         if let Err(msg) = check_node(n, &mut f) {
             // known finding: the aggregate-from-statistics rewrite leaves a PlaceholderRowExec declaring the aggregate's schema
-            let sig = (n.name == "PlaceholderRowExec").then(|| "placeholder-row-declares-aggregate-schema".to_string());
+            let smj_filter = |p: &std::sync::Arc<dyn datafusion::physical_plan::ExecutionPlan>| p.name() == "SortMergeJoinExec" && walk::one_line_full(p.as_ref()).contains("filter=");
+            let sig = if n.name == "PlaceholderRowExec" {
+                Some("placeholder-row-declares-aggregate-schema".to_string())
+            } else if msg.contains("fails while emitting a batch") && walk::subtree_has(&n.plan, &smj_filter) {
+                // known finding: a sort-merge join with a filter builds a NULL-holding batch for a column declared NOT NULL
+                Some("smj-filtered-outer-join-fails-on-non-nullable-column".to_string())
+            } else {
+                None
+            };
             findings.push(Finding { sig, msg });
         }
     }
